@@ -62,26 +62,34 @@ IsExecutor(s, a) == \E i \in 1..Len(s.params.execs) : s.params.execs[i] = a
 (* and every withdrawal it made is announced like any other withdrawal.      *)
 HookRuns(s, h) == h.kind # "none"
 HookAnteOK(s, h) == h.kind = "msgs" /\ s.params.hookGas = "ample"
-SendOK(bal, signer, m) ==
-  ~(m.to = "panic" \/ m.to \in Blocked \/ ~ValidAddr(m.to) \/ m.amt <= 0
-    \/ ~(Has(bal, signer) /\ Has(bal[signer], m.denom) /\ Has(bal, m.to)) \/ bal[signer][m.denom] < m.amt)
-WithdrawOK(bal, pairs, cap, signer, m) ==
-  /\ ValidAddr(signer) /\ NonEmpty(m.to) /\ ValidDenom(m.denom) /\ m.amt > 0 /\ m.amt <= cap
-  /\ Has(pairs, m.denom) /\ Has(bal, signer) /\ Has(bal[signer], m.denom) /\ bal[signer][m.denom] >= m.amt
-RECURSIVE ApplyHook(_, _, _, _, _, _)
-ApplyHook(acc, pairs, cap, signer, msgs, i) ==
-  \* acc = [ok, bal, supply, seqL2, wds]
+
+(* A hook message is an ordinary L2 message of the hook signer, executed by the same Step function on the   *)
+(* branch:  "send" -> BankSend, "withdraw" -> InitiateTokenWithdrawal, "deposit" -> FinalizeTokenDeposit     *)
+(* (only meaningful when the hook signer is an executor: a deposit delivered from inside a deposit's hook). *)
+RECURSIVE Step(_, _)
+NoHookRec == [kind |-> "none", signer |-> "", msgs |-> << >>]
+HookEvent(signer, m, fault) ==
+  CASE m.kind = "send"     -> [type |-> "BankSend", signer |-> signer, to |-> m.to, denom |-> m.denom, amt |-> m.amt]
+    [] m.kind = "withdraw" -> [type |-> "InitiateTokenWithdrawal", signer |-> signer, to |-> m.to, denom |-> m.denom, amt |-> m.amt]
+    [] m.kind = "deposit"  -> [type |-> "FinalizeTokenDeposit", signer |-> signer, seq |-> m.seq, from |-> m.from, to |-> m.to, denom |-> m.denom, amt |-> m.amt,
+                               base |-> m.base, height |-> m.height, hook |-> NoHookRec, fault |-> fault]   \* an injected bank fault is global to the transaction
+WdOnly(w) == [seq |-> w.seq, from |-> w.from, to |-> w.to, denom |-> w.denom, base |-> w.base, amt |-> w.amt]
+(* withdrawals / deposit events a successful step announces, in emission order *)
+WdsOf(ev, r) ==
+  IF ev.type = "InitiateTokenWithdrawal" THEN << r.resp.ev >>
+  ELSE IF ev.type = "FinalizeTokenDeposit" /\ r.resp.result = "SUCCESS" THEN r.resp.hookWds \o (IF r.resp.wd.some THEN << WdOnly(r.resp.wd) >> ELSE << >>)
+  ELSE << >>
+DepsOf(ev, r) == IF ev.type = "FinalizeTokenDeposit" /\ r.resp.result = "SUCCESS" THEN r.resp.depEvs ELSE << >>
+RECURSIVE RunHook(_, _, _, _, _)
+RunHook(acc, signer, msgs, fault, i) ==
+  \* acc = [ok, st, wds, deps]; the branch acc.st is dropped by the caller when ok is FALSE
   IF i > Len(msgs) THEN acc
   ELSE LET m == msgs[i] IN
-       IF m.kind = "send"
-       THEN IF ~SendOK(acc.bal, signer, m) THEN [acc EXCEPT !.ok = FALSE]
-            ELSE ApplyHook([acc EXCEPT !.bal = MoveB(@, signer, m.to, m.denom, m.amt)], pairs, cap, signer, msgs, i + 1)
-       ELSE IF ~WithdrawOK(acc.bal, pairs, cap, signer, m) THEN [acc EXCEPT !.ok = FALSE]
-            ELSE ApplyHook([acc EXCEPT !.bal = Debit(@, signer, m.denom, m.amt),
-                                       !.supply = [@ EXCEPT ![m.denom] = @ - m.amt],
-                                       !.seqL2 = @ + 1,
-                                       !.wds = Append(@, [seq |-> acc.seqL2, from |-> signer, to |-> m.to, denom |-> m.denom, base |-> pairs[m.denom], amt |-> m.amt])],
-                           pairs, cap, signer, msgs, i + 1)
+       IF m.kind = "send" /\ m.to = "panic" THEN [acc EXCEPT !.ok = FALSE]        \* the bank handler panics
+       ELSE LET ev == HookEvent(signer, m, fault)
+                r == Step(acc.st, ev) IN
+            IF ~r.ok THEN [acc EXCEPT !.ok = FALSE]
+            ELSE RunHook([ok |-> TRUE, st |-> r.st, wds |-> acc.wds \o WdsOf(ev, r), deps |-> acc.deps \o DepsOf(ev, r)], signer, msgs, fault, i + 1)
 
 ----------------------------------------------------------------------------
 (* FinalizeTokenDeposit                                                      *)
@@ -96,31 +104,27 @@ DepositOutcome(s, e) ==
   \* what happens to a deposit at the expected sequence
   LET toOK     == ValidAddr(e.to)
       credited == toOK /\ (e.amt = 0 \/ (e.to \notin Blocked /\ e.fault = "none"))
-      bal1     == IF credited THEN Credit(s.bal, e.to, e.denom, e.amt) ELSE s.bal
-      sup1     == IF credited /\ e.amt > 0 THEN [s.supply EXCEPT ![e.denom] = @ + e.amt] ELSE s.supply
-      pairs1   == IF Has(s.pairs, e.denom) THEN s.pairs ELSE Put(s.pairs, e.denom, e.base)     \* the pair is registered before the hook runs
+      \* every processed deposit advances the L1 sequence and registers the denom (pair, metadata) - before the hook runs
+      base0    == [s EXCEPT !.seqL1 = @ + 1,
+                            !.pairs = IF Has(@, e.denom) THEN @ ELSE Put(@, e.denom, e.base),
+                            !.meta  = IF Has(@, e.denom) THEN @ ELSE Put(@, e.denom, e.base)]
+      pre      == IF credited
+                  THEN [base0 EXCEPT !.bal = Credit(@, e.to, e.denom, e.amt),
+                                     !.supply = IF e.amt > 0 THEN [@ EXCEPT ![e.denom] = @ + e.amt] ELSE @]
+                  ELSE base0
       runs     == credited /\ HookRuns(s, e.hook)
       anteOK   == runs /\ HookAnteOK(s, e.hook)
-      acc0     == [ok |-> TRUE, bal |-> bal1, supply |-> sup1, seqL2 |-> s.seqL2, wds |-> << >>]
-      hook     == IF anteOK THEN ApplyHook(acc0, pairs1, s.cap, e.hook.signer, e.hook.msgs, 1) ELSE [acc0 EXCEPT !.ok = FALSE]
+      Seqd(st) == IF anteOK THEN [st EXCEPT !.acctSeq = [@ EXCEPT ![e.hook.signer] = @ + 1]] ELSE st    \* the ante handler's increment is not on the branch
+      hook     == IF anteOK THEN RunHook([ok |-> TRUE, st |-> Seqd(pre), wds |-> << >>, deps |-> << >>], e.hook.signer, e.hook.msgs, e.fault, 1)
+                  ELSE [ok |-> FALSE, st |-> pre, wds |-> << >>, deps |-> << >>]
       hookOK   == ~runs \/ (anteOK /\ hook.ok)
       refund   == ~credited \/ ~hookOK
   IN [credited |-> credited, runs |-> runs, anteOK |-> anteOK, hookOK |-> hookOK, refund |-> refund,
-      bal    |-> IF refund THEN s.bal ELSE IF anteOK THEN hook.bal ELSE bal1,
-      supply |-> IF refund THEN s.supply ELSE IF anteOK THEN hook.supply ELSE sup1,
-      seqL2  |-> IF refund THEN s.seqL2 + 1 ELSE IF anteOK THEN hook.seqL2 ELSE s.seqL2,
-      hookWds |-> IF ~refund /\ anteOK THEN hook.wds ELSE << >>]
+      st       |-> IF refund THEN [Seqd(base0) EXCEPT !.seqL2 = @ + 1] ELSE IF anteOK THEN hook.st ELSE pre,
+      hookWds  |-> IF ~refund /\ anteOK THEN hook.wds ELSE << >>,
+      hookDeps |-> IF ~refund /\ anteOK THEN hook.deps ELSE << >>]
 
-FinalizeTokenDeposit_E(s, e) ==
-  IF e.seq < s.seqL1 THEN s
-  ELSE LET o == DepositOutcome(s, e) IN
-    [s EXCEPT !.seqL1   = @ + 1,
-              !.bal     = o.bal,
-              !.supply  = o.supply,
-              !.pairs   = IF Has(@, e.denom) THEN @ ELSE Put(@, e.denom, e.base),
-              !.meta    = IF Has(@, e.denom) THEN @ ELSE Put(@, e.denom, e.base),
-              !.acctSeq = IF o.anteOK THEN [@ EXCEPT ![e.hook.signer] = @ + 1] ELSE @,
-              !.seqL2   = o.seqL2 ]
+FinalizeTokenDeposit_E(s, e) == IF e.seq < s.seqL1 THEN s ELSE DepositOutcome(s, e).st
 FinalizeTokenDeposit_R(s, e) ==
   IF e.seq < s.seqL1 THEN [result |-> "NOOP"]
   ELSE LET o == DepositOutcome(s, e)
@@ -132,6 +136,7 @@ FinalizeTokenDeposit_R(s, e) ==
             THEN [some |-> TRUE, seq |-> s.seqL2, from |-> e.to, to |-> e.from, denom |-> e.denom, base |-> base, amt |-> e.amt]
             ELSE [some |-> FALSE],
      hookWds |-> o.hookWds,   \* withdrawals made by the hook's own messages, announced in order like any other withdrawal
+     depEvs  |-> o.hookDeps \o << [seq |-> e.seq, denom |-> e.denom, amt |-> e.amt, success |-> ~o.refund] >>,   \* every finalize_token_deposit event of the transaction (deposits delivered by the hook first)
      hookGasOK |-> TRUE]      \* the handler charges at most params.hookGas for the hook (measured differentially by the harness)
 
 ----------------------------------------------------------------------------
